@@ -341,6 +341,10 @@ def run_shutdown(case: dict) -> dict:
                     return web.Response(text="slept-" + name)
                 if name.startswith("/never"):
                     await loop.create_future()
+                if name.startswith("/upload"):
+                    data = await request.read()
+                    ev.append((loop.time(), "handler-finish", name))
+                    return web.Response(text=f"uploaded-{len(data)};")
                 if name.startswith("/bigwrite"):
                     # the peer does not read: the response write blocks in drain()
                     resp = web.StreamResponse()
@@ -410,6 +414,9 @@ def run_shutdown(case: dict) -> dict:
                     peer.send(f"GET /bigwrite/{i} HTTP/1.1\r\nHost: h\r\n\r\n".encode())
                 elif kind == "stream":
                     peer.send(f"GET /stream/{ph['d'] * T + ph['pre']}/{i} HTTP/1.1\r\nHost: h\r\n\r\n".encode())
+                elif kind == "upload":
+                    # a request whose body is still on its way when the shutdown begins; the rest follows right after
+                    peer.send(f"POST /upload/{i} HTTP/1.1\r\nHost: h\r\nContent-Length: 1000\r\n\r\n".encode() + b"u" * 400)
             # clients that go away while their request is being handled (handlers are not cancelled on disconnect by
             # default): the handler is still "a request being handled" when the shutdown comes
             if any(ph.get("gone") for ph in case["conns"]):
@@ -431,7 +438,10 @@ def run_shutdown(case: dict) -> dict:
             out["t_after_iters"] = loop.time()
             # requests arriving after the shutdown began
             for i, (peer, pt, st_, ph) in enumerate(conns):
-                if ph.get("late") and not pt.closing:
+                if ph["kind"] == "upload" and not pt.closing:
+                    peer.send(b"u" * 600 + (f"GET /late/{i} HTTP/1.1\r\nHost: h\r\n\r\n".encode() if ph.get("late") else b""))
+                    ev.append((loop.time(), "upload-rest-sent", i))
+                elif ph.get("late") and not pt.closing:
                     rest = b"st: h\r\n\r\n" if ph["kind"] == "half" else f"GET /late/{i} HTTP/1.1\r\nHost: h\r\n\r\n".encode()
                     peer.send(rest)
                     ev.append((loop.time(), "late-sent", i))
@@ -480,7 +490,14 @@ def check_shutdown(rec: Rec, case: dict) -> None:
         started = any(e[1] == "handler-start" for e in hs)
         finished = [e for e in hs if e[1] == "handler-finish"]
         cancelled = [e for e in hs if e[1] == "handler-cancelled"]
-        active_at_t0 = started and not any(e[0] <= t0 for e in finished + cancelled) if kind in ("sleep", "never", "stream", "bigwrite") else False
+        active_at_t0 = started and not any(e[0] <= t0 for e in finished + cancelled) if kind in ("sleep", "never", "stream", "bigwrite", "upload") else False
+        if kind == "upload" and active_at_t0:
+            # its body arrives in full right after the shutdown began: "may complete during the shutdown timeout"
+            if cancelled or not finished:
+                raise Violation("upload-in-progress-cannot-complete", f"the handler of connection {i} was reading a request body when the shutdown began; the rest of the body "
+                                f"arrived at once, yet the handler was cancelled / never finished; {desc}")
+            if b"uploaded-1000;" not in out["received"][i]:
+                raise Violation("response-lost-in-shutdown", f"upload handler of connection {i} finished but its response did not reach the peer: {out['received'][i][-120:]!r}; {desc}")
         if kind in ("fresh", "keepalive") or (kind in ("sleep", "stream") and not active_at_t0 and started):
             # idle at the shutdown instant: closed at once
             if out["snap_time"] != t0:
@@ -530,7 +547,7 @@ def shutdown_cases(draw):
     n = draw(st.integers(1, 4))
     conns = []
     for _ in range(n):
-        kind = draw(st.sampled_from(["fresh", "keepalive", "half", "sleep", "sleep", "never", "stream", "bigwrite"]))
+        kind = draw(st.sampled_from(["fresh", "keepalive", "half", "sleep", "sleep", "never", "stream", "bigwrite", "upload"]))
         ph = {"kind": kind, "late": draw(st.booleans())}
         if kind in ("sleep", "stream"):
             ph["d"] = draw(st.sampled_from([0.3, 0.8, 1.5, 0.0]))
